@@ -16,7 +16,7 @@ Oracle : (A) decode_simple_value returns one of the documented types or raises
          (D) text whose class is number or date/time is never is_unquoted_string()
              nor is_parameter_name();
          (E) for every encoder: if encode_string(s) returns s without quotes, the
-             dialect's decoder and the default decoder read it back as exactly s
+             dialect's decoder reads it back as exactly s
              (type str); if it adds quotes, it used a quote character absent from s.
 """
 import datetime as dtm
@@ -76,6 +76,15 @@ OBJECT object END_GROUP End_Object BEGIN_OBJECT begin_group inf nan Infinity -in
 x- -x a,b a;b a=b (a) {a} <a> a#b a&b a~b a|b a!b a%b [a] /* */ a/*b // é µ ٣ １２
 """.split()
 CURATED += ["", " ", "a b", " a", "a ", "\t", "a\nb", "\xa0", "1 ", " 1"]
+# the longest forms each dialect admits (and one character more)
+CURATED += ["2001-01-01T12:00:00.123456Z", "2001-001T12:00:00.123456Z",
+            "2001-01-01T12:00:00.123456", "2001-01-01T12:00:00.123-08:00",
+            "2001-027T23:59:59.123456-0530", "2001-01-01T12:00:00.123456+05:30",
+            "2001-01-01T12:00:00.123456-12:45", "2001-12-31T23:59:60.123456Z",
+            "2001-01-01T12:00:00.1234567Z", "12:00:00.123456+05:30",
+            "12:00:00.123456-5", "16#0123456789ABCDEF0123456789abcdef#",
+            "-123456789012345678901234567890.123456789E+123",
+            "a" * 40, "A_" * 20 + "B", "x" * 31]
 
 
 def EXHAUSTIVE(tier):
@@ -269,7 +278,7 @@ def check_encoder(enc, s):
         return (f"C17/enc-{enc}/encode_string-raises/{type(ex).__name__}",
                 f"{s!r}: {ex!r}")
     if out == s:
-        for pair in (ENC_PAIR[enc], "default"):
+        for pair in (ENC_PAIR[enc],):
             g, dec = grammar_decoder(pair)
             try:
                 back = dec.decode_simple_value(s)
@@ -338,6 +347,8 @@ def mutations(acc, n, seed):
     base = st.sampled_from(["123", "-1.5e+10", "+16#FF#", "8#-17#", "2001-01-01",
                             "2001-123", "12:34:56.789Z", "2001-01-01T12:34:56",
                             "12:00:60", "NULL", "true", "abc_DEF", "01:10:39+07",
+                            "2001-01-01T12:00:00.123-08:00", "2001-027T23:59:59.123456-0530",
+                            "2001-01-01T12:00:00.123456Z",
                             "1.", ".5", "1e5", "2#1#", "END_GROUP"])
     edit = st.tuples(st.sampled_from(["ins", "del", "rep"]), st.integers(0, 30),
                      st.sampled_from(ALPHABET + ["9", "f", "F", "/", "*", "2", "6"]))
